@@ -738,6 +738,22 @@ class HashRule(ABC):
                 )
             )
 
+    @staticmethod
+    def _scope_beneath(
+        root_fn: MementoFunctionType, fn: Callable, package_scope: Set[str]
+    ) -> Set[str]:
+        """
+        Packages whose plain helpers are followed beneath `fn`: those of the function at the
+        root of the walk, and the package `fn` itself lives in.
+
+        """
+        scope = set()
+        for f in (getattr(root_fn, "src_fn", None), fn):
+            module = inspect.getmodule(f) if f is not None else None
+            if module is not None:
+                scope.add(module.__package__)
+        return scope if scope else package_scope
+
     @abstractmethod
     def clone(self) -> "HashRule":
         pass
@@ -1001,9 +1017,10 @@ class MementoFunctionHashRule(HashRule):
         # The plain helpers of the package a Memento function lives in belong to it, whichever
         # package the function at the root lives in: beneath this function they are followed
         # the way they are when its own version is computed
-        own_module = inspect.getmodule(memento_fn.src_fn)
-        if own_module is not None:
-            package_scope = package_scope | {own_module.__package__}
+        # (the scope is that of the root plus this function's own package, whatever was
+        # passed on the way: what is collected beneath a function must not depend on the
+        # path by which the walk reached it)
+        package_scope = HashRule._scope_beneath(root_fn, memento_fn.src_fn, package_scope)
 
         for dep in memento_fn.required_dependencies:
             HashRule._visit_dependency(
@@ -1300,6 +1317,9 @@ class NonMementoFunctionHashRule(HashRule):
 
         # Add transitive dependencies:
         src_fn = self.src_fn
+        package_scope = HashRule._scope_beneath(
+            root_fn, inspect.unwrap(src_fn), package_scope
+        )
 
         for dep in list_dotted_names(src_fn):
             # The rules of this function's dependencies name it the way its own key does, so
